@@ -71,7 +71,7 @@ def multiply_out(factors):
         if v in stack:
             raise ValueError("cyclic network at %s" % v)
         if v not in factors:
-            raise ValueError("parent %s has no factor" % v)
+            raise MissingFactor(v)
         for p in factors[v][1]:
             visit(p, stack + (v,))
         seen.add(v)
@@ -104,6 +104,14 @@ def multiply_out(factors):
 # ------------------------------------------------------------------ encoding of the clauses for the Coq model
 class Unsupported(Exception):
     pass
+
+
+class MissingFactor(Exception):
+    """a factor names a parent that is not a variable of the network"""
+
+    def __init__(self, name):
+        Exception.__init__(self, "parent %s has no factor" % name)
+        self.name = name
 
 
 def enc_body(t, atom_id):
@@ -158,6 +166,12 @@ def run_one(ctx, prog, cases, metas):
         if isinstance(e, AttributeError) and "compute_value" in str(e) and "clause_to_cpt" in frames:
             # enum_clauses yields a fact without probability (an atom that is certainly true / a negated literal)
             klass = "bn-export-crash-fact-without-probability"
+        if isinstance(e, MissingFactor) and any(it["kind"] == "ad" and not it["body"] and len(it["heads"]) >= 2 and
+                                                 e.name in [h for h, _ in it["heads"]] for it in prog["items"]):
+            # the only relevant head of a body-less multi-head AD is exported under the name of the disjunction that
+            # uses it (extract_ads takes names from conj/disj parents only): its own variable is missing although other
+            # factors list it as parent -> the printed network defines no joint distribution
+            klass = "bn-export-bodiless-ad-head-renamed-parent-without-factor"
         ctx.count("export_failed")
         ctx.violation("bn export / reading the network failed with %r on %r" % (e, src), {"program": src}, klass=klass)
         return
